@@ -447,7 +447,7 @@ impl Harness for ChainH {
 fn check_held(cx: &Ctx, wire: &Wire, current: &dyn Fn(usize) -> String, held: &[Held], frames: &[FrameSpec], now: usize, site_name: &str) -> Result<(), Verdict> {
     let w = wire.0.borrow();
     for hd in held {
-        let site = if hd.rest_already_read { "with-no-new-data" } else { "" };
+        let site = if hd.rest_already_read { "-with-no-new-data" } else { "" };
         if hd.rest_already_read {
             cx.goal("item-held-while-rest-is-buffered");
         } else {
